@@ -39,6 +39,7 @@ pub fn decl_info(d: &Decl) -> Value {
 
 pub fn declinfo(args: &Args, reg: &[TypeEntry], log: &mut Log) {
     for e in reg {
+        log.start(&e.id, &e.rust);
         let text = guarded(e.export_to_string);
         let ev = match &text {
             Err(p) => json!({"ev": "declinfo", "id": e.id, "rust": e.rust, "outcome": "panic", "msg": p}),
